@@ -46,14 +46,18 @@ def expected_for(recipe, seed=0):
     return out
 
 
-def launch(spec, hdir, name, env_extra=None):
+def launch(spec, hdir, name, env_extra=None, strace=False):
     sp = os.path.join(hdir, f"spec-{name}.json")
     with open(sp, "w") as f:
         json.dump(spec, f)
     env = dict(os.environ)
     if env_extra:
         env.update(env_extra)
-    return subprocess.Popen([PY, "-m", "vf.jitproc", sp], cwd=hdir, env=env, stdout=subprocess.DEVNULL, stderr=open(os.path.join(hdir, f"err-{name}.txt"), "w"),
+    cmd = [PY, "-m", "vf.jitproc", sp]
+    if strace:
+        # kernel-level log of the same run (cross-check that the audit-hook recorder observes the system, not itself)
+        cmd = ["strace", "-f", "-ttt", "-v", "-s", "300", "-e", "trace=openat,open,rename,renameat,renameat2,unlink,unlinkat,execve", "-o", os.path.join(hdir, f"strace-{name}.txt")] + cmd
+    return subprocess.Popen(cmd, cwd=hdir, env=env, stdout=subprocess.DEVNULL, stderr=open(os.path.join(hdir, f"err-{name}.txt"), "w"),
                             start_new_session=bool(spec.get("new_session")))
 
 
@@ -135,3 +139,44 @@ def check_no_fault_history(events, cache_dir, tol=1e-11, expect_builders=1):
             elif e["kernel_err"] > tol:
                 V.append(("wrong-kernels-returned", f"pid {e['pid']} ({e['role']}) got kernels with relative error {e['kernel_err']:.3e}"))
     return V
+
+
+def parse_strace(path, cache_dir):
+    """[(t, pid, key, ok)] of protocol-relevant system calls on files in cache_dir."""
+    import re
+
+    out = []
+    if not os.path.exists(path):
+        return out
+    for line in open(path, errors="replace"):
+        m = re.match(r"(\d+)\s+(\d+\.\d+)\s+(\w+)\((.*)\)\s+=\s+(-?\d+|\?)", line)
+        if not m:
+            continue
+        pid, t, call, args, ret = int(m.group(1)), float(m.group(2)), m.group(3), m.group(4), m.group(5)
+        ok = ret not in ("?",) and not ret.startswith("-")
+        if call in ("openat", "open"):
+            fm = re.search(r'"([^"]+)"', args)
+            if not fm or not fm.group(1).startswith(cache_dir):
+                continue
+            fn = fm.group(1)
+            if fn.endswith(".c") and "O_EXCL" in args:
+                out.append((t, pid, "lock_open", ok))
+            elif fn.endswith(".c.cached") and "O_EXCL" in args:
+                out.append((t, pid, "marker_open", ok))
+            elif ".c.~" in fn and "O_CREAT" in args:
+                out.append((t, pid, "src_tmp_open", ok))
+            elif fn.endswith(".so") and "O_RDONLY" in args and "O_CLOEXEC" in args and ok:
+                out.append((t, pid, "so_open", ok))
+        elif call.startswith("rename"):
+            names = re.findall(r'"([^"]+)"', args)
+            if len(names) >= 2 and names[-1].startswith(cache_dir):
+                if names[-1].endswith(".c.failed"):
+                    out.append((t, pid, "rename_failed", ok))
+                elif names[-1].endswith(".c"):
+                    out.append((t, pid, "rename_src", ok))
+        elif call == "execve" and ok:
+            if " \"-c\"" in args and ".c\"" in args and "gcc" in args:
+                out.append((t, pid, "popen_cc", ok))
+            elif "\"-shared\"" in args and "gcc" in args and "collect2" not in args and "/ld" not in args.split(",")[0]:
+                out.append((t, pid, "popen_link", ok))
+    return out
